@@ -73,6 +73,9 @@ def gen(W):
     # the failure may also come from the server's own handling of the application's data: a header value
     # that cannot be encoded makes the first write raise inside the server
     sc["unencodable_header"] = W.chance(0.12)
+    # the request queued behind may hand over a file as well (two files in the output queue at teardown)
+    sc["second_file"] = W.chance(0.25)
+    sc["client_stalls"] = W.chance(0.3)
     return sc
 
 
@@ -85,6 +88,8 @@ def steps_of(sc):
     elif sc["kind"] in ("gen", "list"):
         st += [["next", i] for i in range(n)]
         st += ["end", "close"]
+    elif sc["kind"] == "file":
+        st += ["file_close"]
     return st
 
 
@@ -112,6 +117,8 @@ def one_run(sc, placement, sub_id):
     if sc["method"] == "POST":
         script["read_input"] = True
     exc_cls = None
+    if placement and placement[0] == "combo":
+        script["raise_at"] = ("file_close", FACT[placement[3]])
     if placement and placement[0] == "exc":
         step = placement[1]
         step = tuple(step) if isinstance(step, list) else step
@@ -119,10 +126,13 @@ def one_run(sc, placement, sub_id):
         script["raise_at"] = (step, FACT[exc_cls])
         if script["kind"] == "list":
             script["kind"] = "gen"
-    scripts = {"/a": script, "/b": {"chunks": [b"second"], "cl": 6}, "/probe": {"chunks": [b"probe-ok"], "cl": 8}}
+    second = {"chunks": [b"second"], "cl": 6}
+    if sc.get("second_file"):
+        second = {"chunks": [token_body(0, 1, 3000)], "cl": 3000, "kind": "file"}
+    scripts = {"/a": script, "/b": second, "/probe": {"chunks": [b"probe-ok"], "cl": 8}}
     app = ScriptedApp(sim, scripts)
     sim.build(app)
-    if placement and placement[0] == "net":
+    if placement and placement[0] in ("net", "combo"):
         sim.add_fault(0, "send", placement[1], -1 if placement[2] == "RST" else -3)
     hdrs = [("Host", "s")]
     if sc["version"] == "1.0" and sc["keepalive10"]:
@@ -130,7 +140,10 @@ def one_run(sc, placement, sub_id):
     rb = b"input-body" if sc["method"] == "POST" else None
     stream = build_request(sc["method"], "/a", sc["version"], hdrs, rb)
     stream += build_request("GET", "/b", "1.1", [("Host", "s")])
-    sim.add_client([("send", stream)], cid=0)
+    csteps = [("send", stream)]
+    if (sc.get("client_stalls") and placement and placement[0] == "net") or (placement and placement[0] == "combo"):
+        csteps = [("mode", "stalled")] + csteps
+    sim.add_client(csteps, cid=0)
     state = {"probe": None}
 
     def on_idle(k, quiescent):
@@ -160,6 +173,8 @@ def one_run(sc, placement, sub_id):
         if placement[0] == "exc":
             st = placement[1]
             ptag = "%s@%s" % (exc_cls, st if isinstance(st, str) else st[0])
+        elif placement[0] == "combo":
+            ptag = "client_%s+%s@file_close" % (placement[2], placement[3])
         else:
             ptag = "client_%s" % placement[2]
 
@@ -190,7 +205,16 @@ def one_run(sc, placement, sub_id):
     if not sc["expose"] and (SECRET.encode() in wire or b"Traceback" in wire):
         v("traceback_leak", "exception text on the wire although expose_tracebacks is off: %r" % (wire[-200:],))
     # what the wire shows
-    if placement and placement[0] == "exc" and fired and s is not None:
+    if placement and placement[0] == "exc" and placement[1] == "file_close":
+        # the file's close() runs on the I/O thread after its data has been sent (or at teardown): the failure
+        # must be contained (checked above: loop, workers, probe) and the response must be intact; whether the
+        # connection is then kept is not prescribed
+        if s is not None:
+            rs, probs = parse_stream(wire, [sc["method"], "GET"], s.closed)
+            finals = [r for r in rs if not r.interim]
+            if not finals or finals[0].status is None or (finals[0].get("X-App") == "yes" and not finals[0].complete and not s.closed):
+                v("file_close_failure", "response damaged after the file's close() raised: %r" % (probs,))
+    elif placement and placement[0] == "exc" and fired and s is not None:
         rs, probs = parse_stream(wire, [sc["method"], "GET"], s.closed)
         finals = [r for r in rs if not r.interim]
         calls_b = [c for c in app.calls if c["path"] == "/b"]
@@ -224,6 +248,12 @@ def one_run(sc, placement, sub_id):
                 v("unexpected_response", "first response is %r without the application's marker" % (r0.status,))
         if calls_b:
             v("executed_after_failure", "the next request on the connection was executed after the failure")
+    # every file handed over must be closed by the time the connection is gone
+    if k.end_reason in ("idle", "quiescent") and s is not None and s.closed:
+        for c in app.calls:
+            f = c.get("file")
+            if f is not None and c["returned"] and getattr(f, "closed_count", 1) == 0 and c is not rec:
+                v("file_not_closed", "file handed to wsgi.file_wrapper by %s was never closed although the connection is gone" % c["path"], disc=ptag + ":second_file")
     # close() exactly once
     if rec is not None:
         n = app.close_counts.get((0, 0), 0)
@@ -261,12 +291,22 @@ def run_one(tapes, tier, scenario=None):
         i = 1
         for st in steps_of(sc):
             for ec in EXC:
+                if st == "file_close" and ec in ("BaseException", "SystemExit"):
+                    # a handed-over file is closed by the I/O thread, where SystemExit/KeyboardInterrupt are the
+                    # server's own shutdown signal by design; only Exception classes are injected there
+                    continue
                 todo.append((i, ["exc", st, ec]))
                 i += 1
         for n in range(min(info0["sends"], 12)):
             for what in ("RST", "FIN"):
                 todo.append((i, ["net", n, what]))
                 i += 1
+        if sc["kind"] == "file":
+            # a failing file close() *and* a client that vanishes while files are still queued
+            for n in range(min(info0["sends"], 4)):
+                for ec in ("Exception", "FileNotFoundError"):
+                    todo.append((i, ["combo", n, "RST", ec]))
+                    i += 1
     first_bad = None
     import os, time
     dl = float(os.environ.get("VERIF_RUN_DEADLINE", "0") or 0)
